@@ -16,6 +16,7 @@ import (
 	"github.com/jech/galene/conn"
 	"github.com/jech/galene/diskwriter"
 	"github.com/jech/galene/group"
+	"github.com/jech/galene/token"
 	"github.com/jech/galene/webserver"
 
 	"verif/vos"
@@ -243,7 +244,9 @@ func (w *world) checkPath(c octx, op, p string) {
 	ok := false
 	switch c.kind {
 	case kGroup:
-		ok = under(sb.groups, p) || p == sb.config || p == sb.tokens
+		// the token store lives in its own directory under data/ (the file,
+		// its directory and the temp files of a rewrite)
+		ok = under(sb.groups, p) || p == sb.config || p == sb.tokens || p == filepath.Dir(sb.tokens) || under(filepath.Dir(sb.tokens), p)
 	case kRec, kRecDelete:
 		ok = under(sb.rec, p) || under(sb.groups, p) || p == sb.config
 	case kStatic:
@@ -538,6 +541,35 @@ func (w *world) driveGroupLayer(s string) {
 			if !refUser(s) || fc.user != s {
 				w.viol("joined-invalid-name/username-token", fmt.Sprintf("a client joined (stateful token) with the invalid username %q (%s)", fc.user, refReason(s)), c.name)
 			}
+		}
+	}, nil)
+
+	// the username embedded in a stateful token (tokens are minted by members
+	// through maketoken, which does not validate it): it must be validated
+	// when the token is used
+	c = octx{name: "join-token-embedded-username", kind: kGroup}
+	w.run(c, func() {
+		name := s
+		exp := time.Date(2031, 1, 1, 0, 0, 0, 0, time.UTC)
+		if _, err := token.Update(&token.Stateful{Token: "tok-embedded", Group: "a", Username: &name, Permissions: []string{"present"}, Expires: &exp}, ""); err != nil {
+			note(c.name, err)
+			return
+		}
+		fc := &fakeClient{}
+		other := "harmless"
+		for _, creds := range []group.ClientCredentials{{Token: "tok-embedded"}, {Username: &other, Token: "tok-embedded"}} {
+			_, err := group.AddClient("a", fc, creds)
+			note(c.name, err)
+			if err == nil {
+				w.served++
+				if !refUser(fc.user) {
+					w.viol("joined-invalid-name/username-in-token", fmt.Sprintf("a client joined with a stateful token carrying the invalid username %q (%s)", fc.user, refReason(fc.user)), c.name)
+				}
+				group.DelClient(fc)
+			}
+		}
+		if _, etag, err := token.Get("tok-embedded"); err == nil {
+			token.Delete("tok-embedded", etag)
 		}
 	}, nil)
 
